@@ -31,7 +31,23 @@ def impl_case(case):
                 c = problem.mutation_space.choices_index[i]
                 if c is None or inp[c.start:c.end] in c.variants:
                     bad.append(i)
-        return dict(kind=kind, changed=sum(x != y for x, y in zip(inp, out)), bad=bad, same_len=len(inp) == len(out))
+        # independent of the mutation space: an input that satisfies every constraint is left alone
+        from . import specs, c04
+        all_ok = True
+        try:
+            for d in p["constraints"]:
+                sp = specs.build_spec(tuple(d) if not isinstance(d, tuple) else d).initialized_on_problem(specs.FakeProblem(inp), role="constraint")
+                if not sp.evaluate(specs.FakeProblem(inp)).passes:
+                    all_ok = False
+                if type(sp).__name__ == "EnforceTranslation":
+                    loc = sp.location
+                    sp._verif_first_codon = inp[loc.start:loc.start + 3] if loc.strand != -1 else specs.rcs(inp[loc.end - 3:loc.end])
+                    if not c04.start_policy_ok(sp, inp):
+                        all_ok = False
+        except Exception:  # noqa
+            all_ok = False
+        return dict(kind=kind, changed=sum(x != y for x, y in zip(inp, out)), bad=bad, same_len=len(inp) == len(out),
+                    valid_input_changed=bool(all_ok and inp != out), inp=inp, out=out)
     np.random.seed(p["np_seed"])
     try:
         if kind == "resolve":
@@ -88,6 +104,8 @@ def oracle(case, out):
             return "construction changed the sequence length"
         if o["bad"]:
             return "construction changed a position compatible with the hard restrictions"
+        if o.get("valid_input_changed"):
+            return "construction edited an input that satisfies every constraint (%s -> %s)" % (o["inp"], o["out"])
         return None
     if o["code"] != 0:
         return "solver raised on an already feasible/optimal problem: %s" % (o["exc"],)
@@ -119,6 +137,21 @@ def gen_cases(rng, tier):
         cases.append(("optimize", json.dumps(p, sort_keys=True)))
     for _ in range(N):
         p = problems.gen_problem(rng, with_objectives=False, allow_custom=False)
+        cases.append(("build", json.dumps(p, sort_keys=True)))
+    # restriction borders cutting 6-fold codons of a coding region (merge of partly overlapping choices)
+    from . import c04
+    six = ["CTT", "CTC", "CTA", "CTG", "TTA", "TTG", "CGT", "CGC", "CGA", "CGG", "AGA", "AGG",
+           "TCT", "TCC", "TCA", "TCG", "AGT", "AGC"]
+    for _ in range(N):
+        k = rng.choice([2, 3, 4, 6])
+        seq = "".join(rng.choice(six) for _ in range(k))
+        strand = rng.choice([1, 1, -1])
+        if strand == -1:
+            from .specs import rcs
+            seq = rcs(seq)
+        cs = [c for c in c04.gen_hard(rng, seq) if c[0] not in ("EnforceTranslation", "EnforceChanges")]
+        cs = [("EnforceTranslation", problems.kw(location=(0, 3 * k, strand)))] + cs
+        p = dict(seq=seq, constraints=tuple(cs), objectives=(), cfg=problems.gen_settings(rng), np_seed=rng.randint(0, 10**6))
         cases.append(("build", json.dumps(p, sort_keys=True)))
     return cases, {}
 
